@@ -414,6 +414,25 @@ func (e *Env) hostileStrings(newGroup func(*c03group) int, emit func(c03exp)) {
 			}
 		}
 	}
+	// word counts congruent to an acceptable count modulo 2^8 and 2^16, all list words: with a
+	// count taken modulo a narrow integer some of them pass the checksum by chance
+	{
+		r := rng.New(e.Seed, "C03-bigcount")
+		for lang := 0; lang < ref.NLang; lang++ {
+			for _, n := range []int{268, 271, 274, 277, 280, 524, 65548} {
+				if n > 1000 && lang%5 != 0 {
+					continue
+				}
+				for rep := 0; rep < map[bool]int{true: 40, false: 2}[n == 268]; rep++ {
+					t := make([]string, n)
+					for i := range t {
+						t[i] = e.Model.List[lang][r.Intn(2048)]
+					}
+					emit(c03exp{s: strings.Join(t, " "), lang: lang, class: "count-congruent-to-an-acceptable-count", group: -1})
+				}
+			}
+		}
+	}
 	// fixed oddities, every language
 	for lang := 0; lang < ref.NLang; lang++ {
 		for _, s := range []string{"", " ", "           ", strings.Repeat(" ", 23), "\x00", "\xff\xfe", strings.Repeat("a ", 12), strings.Repeat("abandon ", 12)} {
@@ -529,6 +548,34 @@ func checkC03(e *Env) {
 	})
 
 	// the concurrent flavour of this monitor (C12 is the full treatment)
+	// many distinct sentences in spellings that need normalising (valid and wrong-checksum ones
+	// alternating), then the same ones again and once more in reverse: a bounded cache of
+	// normal forms or verdicts must not answer from another sentence's entry
+	wrapCalls := 0
+	wrapSizes := []int{40, 150, 600, e.pick(2500, 12000)}
+	parallel(len(wrapSizes)*2, e.Workers, func(k int) {
+		g := &seqGen{e: e, r: rng.New(e.Seed, "C03-wrap-"+itoa(k)), bufs: map[int][]byte{}}
+		g.cacheWrap(k%2, wrapSizes[k/2])
+		res, died := e.RunProc(drv, g.ops, nil, 0)
+		if died != "" || len(res) != len(g.ops) {
+			return
+		}
+		for i := range res {
+			op, r := &g.ops[i], &res[i]
+			if r.Panic != "" || !acceptedBy(op, r) {
+				continue
+			}
+			if st, _ := e.RefValidate(op.Str(), int(op.L)); st != ref.OK {
+				e.Violate(&Violation{What: fmt.Sprintf("after %d distinct validations in the same process, %s accepted a string that is not a valid %s mnemonic (%s): %s", wrapSizes[k/2], fnName(op.Fn), ref.Names[op.L], st, preview(op.Str())),
+					Ops: g.ops[:i+1], Expected: "rejected", Observed: r, Detail: "the failing call is the last of ops; the preceding ones are its history"})
+				return
+			}
+		}
+		gmu.Lock()
+		wrapCalls += len(res)
+		gmu.Unlock()
+	})
+	notJudged.Add("calls_in_repeat_after_many_distinct_sentences_histories", wrapCalls)
 	// identity is not equality: an ACCEPTED sentence becomes garbage and a wrong-checksum sentence
 	// of the same byte length takes over its address
 	reusePairs, reuseHits := e.addressReuse(drv, "C03", e.pick(4, 24), 60, func(r *rng.R, k int) (plan.Op, plan.Op, bool) {
